@@ -32,7 +32,7 @@ static JanetFiber vv_envfiber;
 static JanetFuncEnv vv_env[2];
 static Janet vv_envvals[2][3];
 static Janet vv_ret;
-static struct { JanetFunction f; JanetFuncEnv *envs[2]; } vv_func;
+static JanetFunction *vv_fn;   /* heap block: function header followed by its two environment pointers (flexible array member) */
 
 /* allocation contract: a fresh block of the requested size */
 void *vv_gcalloc_stub(enum JanetMemoryType type, size_t size) {
@@ -86,10 +86,12 @@ void h_vm_verified_step(void) {
     __CPROVER_assume(janet_verify(&vv_def) == 0);
 
     /* ---- the running function and its captured environments (valid as janet_env_valid / unmarshal leave them) ---- */
-    vv_func.f.def = &vv_def;
-    vv_func.f.gc.flags = JANET_MEMORY_FUNCTION;
+    vv_fn = malloc(sizeof(JanetFunction) + 2 * sizeof(JanetFuncEnv *));
+    __CPROVER_assume(vv_fn != (JanetFunction *)0);
+    vv_fn->def = &vv_def;
+    vv_fn->gc.flags = JANET_MEMORY_FUNCTION;
     for (int i = 0; i < 2; i++) {
-        vv_func.f.envs[i] = &vv_env[i];
+        vv_fn->envs[i] = &vv_env[i];
         vv_env[i].length = nd_i32();
         __CPROVER_assume(vv_env[i].length >= 0 && vv_env[i].length <= 3);
         vv_env[i].offset = 0;                 /* detached environment: values block of `length` slots */
@@ -110,7 +112,7 @@ void h_vm_verified_step(void) {
     vv_fiber.flags = JANET_FIBER_RESUME_NO_USEVAL | JANET_FIBER_RESUME_NO_SKIP | JANET_FIBER_MASK_ERROR;
     vv_fiber.gc.flags = JANET_MEMORY_FIBER;
     JanetStackFrame *fr = (JanetStackFrame *) data;
-    fr->func = &vv_func.f;
+    fr->func = vv_fn;
     int32_t at = nd_i32();
     __CPROVER_assume(at >= 0 && at < VV_CODELEN);
     fr->pc = vv_code + at;
